@@ -8,6 +8,7 @@ import (
 	"path/filepath"
 	"runtime/debug"
 	"sort"
+	"strings"
 	"sync"
 	"time"
 
@@ -58,11 +59,15 @@ type conWrap struct {
 	done     chan struct{}
 	onCall   func()
 	removals []removal
+	poolAt   func() int64
+	seqNow   func() int
 }
 
 type removal struct {
 	ID     p2p.ID
 	Reason string
+	Pool   int64 // the pool's height when the peer was removed (-1: unknown); a failed pair is (Pool, Pool+1)
+	Seq    int   // deliveries made before the removal
 }
 
 func (w *conWrap) SwitchToConsensus(state sm.State, skipWAL bool) {
@@ -90,8 +95,15 @@ func (w *conWrap) SwitchToConsensus(state sm.State, skipWAL bool) {
 }
 
 func (w *conWrap) RemovePeer(peer p2p.Peer, reason interface{}) {
+	r := removal{ID: peer.ID(), Reason: fmt.Sprint(reason), Pool: -1}
+	if w.poolAt != nil {
+		r.Pool = w.poolAt()
+	}
+	if w.seqNow != nil {
+		r.Seq = w.seqNow()
+	}
 	w.mu.Lock()
-	w.removals = append(w.removals, removal{ID: peer.ID(), Reason: fmt.Sprint(reason)})
+	w.removals = append(w.removals, r)
 	w.mu.Unlock()
 	w.Reactor.RemovePeer(peer, reason)
 }
@@ -103,13 +115,15 @@ type double struct {
 	idx  int // index in node.doubles
 	spec *peerSpec
 
-	mu        sync.Mutex
-	stopped   bool
-	stoppedAt int // delivery sequence number at the time of the stop
-	statusAt  int // delivery sequence number of its first delivered status (-1: none)
-	lastTop   int64 // height claimed by its last delivered status (-1: none)
-	asked     map[int64]int
-	pushed    map[int64]bool
+	mu         sync.Mutex
+	stopped    bool
+	stoppedAt  int   // delivery sequence number at the time of the stop
+	stopOrder  int   // 1, 2, 3 ... in the order in which peers were stopped (0: running)
+	statusAt   int   // delivery sequence number of its first delivered status (-1: none)
+	lastTop    int64 // height claimed by its last delivered status (-1: none)
+	lastTopSeq int   // delivery sequence number of that status
+	asked      map[int64]int
+	pushed     map[int64]bool
 }
 
 func (d *double) SendEnvelope(e p2p.Envelope) bool    { d.n.enqueue(d, e.Message); return true }
@@ -119,6 +133,7 @@ func (d *double) Stop() error {
 	if !d.stopped {
 		d.stopped = true
 		d.stoppedAt = d.n.seqNow()
+		d.stopOrder = d.n.nextStopOrder()
 	}
 	d.mu.Unlock()
 	return d.Peer.Stop()
@@ -178,11 +193,12 @@ type node struct {
 	seq     int
 	doubles []*double
 
-	events     []event
-	evSeq      int
-	tick       int
-	deliveries []delivery
-	reconnects int
+	events         []event
+	evSeq          int
+	tick           int
+	deliveries     []delivery
+	reconnects     int
+	stops          int
 	handoverHonest bool // an honest full peer with delivered status was connected when the hand-over began
 }
 
@@ -193,6 +209,8 @@ func (n *node) enqueue(d *double, m proto.Message) {
 }
 
 func (n *node) seqNow() int { n.mu.Lock(); defer n.mu.Unlock(); return n.seq }
+
+func (n *node) nextStopOrder() int { n.mu.Lock(); defer n.mu.Unlock(); n.stops++; return n.stops }
 
 type nopWriter struct{}
 
@@ -274,6 +292,10 @@ func newNode(sc *scenario, chain *lib.Chain) (*node, error) {
 	n.sw = p2p.NewSwitch(pcfg, n.transport)
 	n.sw.SetLogger(nopLogger)
 	n.sw.AddReactor("BLOCKCHAIN", n.bcR)
+	if pv, ok := n.bcR.(poolView); ok {
+		n.wrap.poolAt = pv.VerifC13PoolHeight
+	}
+	n.wrap.seqNow = n.seqNow
 	n.sw.AddReactor("CONSENSUS", n.wrap)
 	n.sw.SetNodeKey(&nodeKey)
 	n.sw.SetNodeInfo(ni)
@@ -345,6 +367,17 @@ func (n *node) statusOf(spec *peerSpec, kind string, arg int) *bcproto.StatusRes
 		if top < base {
 			top = base
 		}
+		if base > n.tip {
+			base = n.tip
+			top = n.tip
+		}
+	case "narrow":
+		// a one-block range: the peer is only ever asked for that height, its neighbours come from others
+		base = n.sc.Initial + int64(arg)
+		if base > n.tip {
+			base = n.tip
+		}
+		top = base
 	case "inflated":
 		top = n.tip + int64(arg)
 	case "invalid":
@@ -488,6 +521,7 @@ func (n *node) step() {
 			}
 			if e.status.Base <= e.status.Height {
 				e.d.lastTop = e.status.Height
+				e.d.lastTopSeq = seq
 			}
 			e.d.mu.Unlock()
 			n.deliveries = append(n.deliveries, rec)
@@ -538,6 +572,7 @@ type outcome struct {
 	finalState sm.State
 	// the pool's idea of the best peer height stayed above everything a connected peer claims
 	stuckMax, stuckBest, stuckPool int64
+	wedged                         bool // stopped early: a blame violation persisted (see blameViolations)
 }
 
 // run starts the node, connects the doubles in scenario order and drives the sync until the hand-over to
@@ -547,12 +582,18 @@ func (n *node) run(budget time.Duration) (*outcome, error) {
 		return nil, err
 	}
 	start := time.Now()
+	var late []*peerSpec
 	for i := range n.sc.Peers {
+		if n.sc.Peers[i].JoinAt > 0 {
+			late = append(late, &n.sc.Peers[i])
+			continue
+		}
 		n.addDouble(&n.sc.Peers[i])
 	}
 	out := &outcome{}
 	pv, _ := n.bcR.(poolView)
 	lastCheck, strikes := start, 0
+	lastBlame, blameStrikes := start, 0
 	for {
 		select {
 		case <-n.wrap.done:
@@ -567,6 +608,26 @@ func (n *node) run(budget time.Duration) (*outcome, error) {
 			break
 		}
 		n.step()
+		for i, sp := range late {
+			if sp != nil && n.tick >= sp.JoinAt {
+				n.addDouble(sp)
+				late[i] = nil
+			}
+		}
+		// wedge diagnosis (state-based): an honest peer was blamed for a pair while the peer that lied about that
+		// pair keeps its connection - observed unchanged several times in a row
+		if time.Since(start) > 3*time.Second && time.Since(lastBlame) > 400*time.Millisecond {
+			lastBlame = time.Now()
+			if b := n.blameViolations(); len(b) > 0 {
+				blameStrikes++
+				if blameStrikes >= 4 {
+					out.timedOut, out.wedged = true, true
+					break
+				}
+			} else {
+				blameStrikes = 0
+			}
+		}
 		// stall diagnosis (state-based; the clock only spaces the observations): with nothing in flight, the pool must
 		// not believe in a peer height that no connected peer claims
 		if pv != nil && time.Since(start) > 3*time.Second && time.Since(lastCheck) > 400*time.Millisecond {
@@ -577,7 +638,11 @@ func (n *node) run(budget time.Duration) (*outcome, error) {
 			best := int64(0)
 			for _, d := range n.doubles {
 				d.mu.Lock()
-				if !d.stopped && d.lastTop > best {
+				// A status that was on its way while the node was stopping its sender may have re-entered the sender
+				// into the pool after the removal (the reactor does not check that a status comes from a peer it still
+				// has); such a ghost is dropped by the pool's own 15 s peer timeout, so its claim still counts here.
+				ghost := d.stopped && d.lastTopSeq >= d.stoppedAt
+				if (!d.stopped || ghost) && d.lastTop > best {
 					best = d.lastTop
 				}
 				d.mu.Unlock()
@@ -600,4 +665,63 @@ func (n *node) run(budget time.Duration) (*outcome, error) {
 		time.Sleep(15 * time.Millisecond)
 	}
 	return out, nil
+}
+
+// blameViolations: when a pair of blocks fails verification the node cannot tell which of the two is wrong, so it has
+// to give up both and stop both senders. Seen from outside: whenever a peer that never lied is removed with a
+// validation error for the pair (H, H+1), some peer that did serve a non-canonical block for H or H+1 on request before
+// that moment must be gone as well - stopped earlier, or removed for the very same error. (A removal repeated for the
+// same pair right afterwards, hitting peers that had only just been asked, carries the same error text.)
+func (n *node) blameViolations() []string {
+	n.wrap.mu.Lock()
+	removals := append([]removal(nil), n.wrap.removals...)
+	n.wrap.mu.Unlock()
+	n.mu.Lock()
+	doubles := append([]*double(nil), n.doubles...)
+	n.mu.Unlock()
+	byID := map[p2p.ID]int{}
+	reasonOf := map[int]string{}
+	for i, d := range doubles {
+		byID[d.ID()] = i
+	}
+	for _, r := range removals {
+		if i, ok := byID[r.ID]; ok {
+			reasonOf[i] = r.Reason
+		}
+	}
+	var out []string
+	for _, r := range removals {
+		qi, ok := byID[r.ID]
+		if !ok || doubles[qi].spec.Role == "liar" || r.Pool < 0 || !strings.Contains(r.Reason, "blockchainReactor validation error") {
+			continue
+		}
+		q := doubles[qi]
+		q.mu.Lock()
+		qOrder := q.stopOrder
+		q.mu.Unlock()
+		candidates, gone := 0, false
+		for _, dl := range n.deliveries {
+			if !dl.isBlock || dl.canon || dl.basicBad || dl.pushed || dl.Seq > r.Seq || (dl.Height != r.Pool && dl.Height != r.Pool+1) ||
+				dl.Kind == "other-height" || dl.Kind == "other-height+right" || dl.Peer >= len(doubles) || doubles[dl.Peer].spec.Role != "liar" {
+				continue
+			}
+			candidates++
+			l := doubles[dl.Peer]
+			l.mu.Lock()
+			lStopped, lOrder := l.stopped, l.stopOrder
+			l.mu.Unlock()
+			if lStopped && (lOrder < qOrder || reasonOf[dl.Peer] == r.Reason) {
+				gone = true
+			}
+		}
+		switch {
+		case candidates == 0:
+			out = append(out, fmt.Sprintf("peer %d (%s) was stopped (%s) for the pair (%d,%d) although nobody had served a non-canonical block for either height",
+				qi, q.spec.Role, r.Reason, r.Pool, r.Pool+1))
+		case !gone:
+			out = append(out, fmt.Sprintf("peer %d (%s), which never lied, was stopped (%s) for the pair (%d,%d) while the peer that served the non-canonical block of that pair was neither stopped before nor with it",
+				qi, q.spec.Role, r.Reason, r.Pool, r.Pool+1))
+		}
+	}
+	return out
 }
